@@ -4,4 +4,4 @@ From NV Require Import Base.Bytes C19.Model.
 Extraction Language OCaml.
 Extraction "c19_model.ml" write_geometry read_geometry serialize_volume_info read_volume_info
   write_morph read_morph morph_shape_ok pack_rgb write_annot read_annot relabel
-  mgh_write mgh_read set_data_shape get_data_shape ndims get_zooms mdims.
+  mgh_write mgh_read mgh_save fs_get set_data_shape get_data_shape ndims get_zooms mdims.
